@@ -30,6 +30,43 @@ Deciding monitor M (boundary oracle, public API only):
            itself; the texts include ones whose non-empty lines all share a common
            leading indentation (blanks, tabs, mixed).
 
+* M.list   LIST-VALUED FIELDS THROUGH THEIR TYPED GETTERS (Files: whitespace-separated
+           patterns; Upstream-Contact / Files-Excluded / Files-Included: one entry per
+           line).  Lists whose entries contain or END IN punctuation that a tolerant
+           reader might treat as a separator or strip (trailing / leading / lone ',' and
+           ';', trailing ':' '.' '\\', internal commas, quotes, brackets, full-width
+           separators) are (a) given to a fresh object (FilesParagraph.create, Header() +
+           setter) and read back, (b) assigned to one long-lived object again and again
+           (list / tuple arguments) and read back twice, (c) written by the object's own
+           dump() and read from a paragraph object constructed over the parsed text,
+           (d) re-read from every object of the batch after all were created, (e) put
+           into one document that is dumped and parsed back with strict=True and
+           strict=False.  The TYPED value (sequence of entries) is compared with the list
+           that was assigned - never the dumped text.  The same lists appear in the
+           documents of M.doc (feat:punct-*).
+* M.watch  NO STATE SHARED BETWEEN OBJECTS OF ONE FACTORY.  "Factory" documents carry
+           2..5 stand-alone License paragraphs interleaved with Files paragraphs, with
+           synopses / texts / whole licences / pattern lists recurring between them (also
+           the very same License object handed to several create() calls), paragraphs and
+           Header() objects that are created but never added (decoys), a header built as
+           a stand-alone Header() and assigned, assignments made late (after everything
+           was created and added, optionally after a first dump / re-parse).  With
+           case['early'] every object is read right after its creation; after every
+           later creation / assignment EVERY object created so far must still show its
+           own values ('watched-*': an object that read correctly before changed;
+           'created-*' / 'assigned-*': the object just created / assigned).  M.multi:
+           2..4 such documents are built one after the other in ONE case, all kept
+           alive, then every object of every document is re-read and every document is
+           dumped and re-parsed; a finding a document does not show when built alone
+           gets the suffix '/only-with-other-documents-built-in-the-same-process'.
+* M.nonstrict  the dump of a document whose strict re-parse had no complaint is also
+           parsed with strict=False: same paragraph kinds, same typed values, same
+           re-dump.
+
+Witnesses of state kept between objects are confirmed in a fresh interpreter (what
+--replay does): the shrunk case, the case, the case built twice, the case after the
+preceding documents of the process - first one that reproduces is the witness.
+
 Auxiliary monitor K.codec: contract on copyright.format_multiline_lines itself -
 on EVERY call made by any workload (also the internal ones from License.to_str)
 the result decodes back to the argument when the argument is in the domain.
@@ -67,7 +104,25 @@ RULE = ('Seeded specs of copyright documents: header (optional Upstream-Name, Up
         'and dumped again (second cycle fed in the next input form).  Common-indentation texts (feat:common-indent, '
         'lic:common-indent*): about one text in eight is drawn from a class in which every non-empty line starts '
         'with the same run of blanks / tabs / blank+tab (some lines indented deeper, empty lines in between, '
-        'optionally trailing blanks), and one raw value in five gives all continuation lines the same lead.')
+        'optionally trailing blanks), and one raw value in five gives all continuation lines the same lead.  '
+        'PUNCTUATED LIST ENTRIES (lists:*, feat:punct-*): entries of Files / Upstream-Contact / Files-Excluded / '
+        'Files-Included lists that contain or end in separator-like punctuation - trailing comma ("data/table_a,b,"), '
+        'leading comma, an entry that is only "," or ";", entries ending in ";" ":" "." "\\", internal commas / '
+        'semicolons, quotes, brackets, full-width separators - at the only / first / middle / last position; ALL lists '
+        'of 1..3 entries over a 13-entry alphabet for Files and all lists of 1..2 entries over a 13-entry alphabet for '
+        'each line-based field (2925 lists) plus seeded batches of 16 lists; every list goes to a fresh object, to one '
+        're-assigned long-lived object (read twice), through the paragraph dump and a paragraph-level re-parse, and '
+        'every batch through one document dump + strict and non-strict parse; a list is non-trivial when at least one '
+        'entry shows a punctuation class.  FACTORY DOCUMENTS (fact:*): 2..5 stand-alone License paragraphs (different '
+        'and deliberately recurring synopses / texts / whole licences from a per-case pool, also synopses equal up to '
+        'case, also the same License object handed to several create() calls) interleaved with 0..4 Files paragraphs, '
+        '0..2 decoy paragraphs and 0..2 decoy Header() objects (created, never added), header in place or as a '
+        'stand-alone Header() assigned to the document, 0..3 late assignments (license / files / comment / header '
+        'fields) after all paragraphs were added - for about a third of those documents after a first complete dump / '
+        're-parse cycle; early reads (read every object right after creation) in 60% of them and in half of the '
+        'ordinary documents; non-strict re-parse for all of them and a quarter of the ordinary documents.  MULTI '
+        'CASES (multi:*): 2..4 small factory documents sharing one value pool built in sequence in one case, all '
+        'objects kept alive and re-read at the end.')
 ASSUMPTIONS = [
     'domain: text lines never whitespace-only (unless empty) nor a lone "."; last line of a text non-blank; only \\n as '
     'line boundary (no \\r, \\v, \\f, \\x1c-\\x1e, \\x85, U+2028/9); first lines and single-line values without outer blanks',
@@ -85,6 +140,25 @@ ASSUMPTIONS = [
     '(piece k+1 of the dump belongs to the k-th paragraph all_paragraphs() reported, by identity); the expected text '
     'of its dump is T2 itself, because every piece is a paragraph dump the library produced and the built-order '
     're-dump of the same pieces was already byte-identical',
+    'list entries: a Files pattern is any non-empty string without a character str.isspace() accepts and without the '
+    'excluded line-boundary characters; punctuation (",", ";", ":", ".", "\\", quotes, brackets, full-width forms) is '
+    'ordinary pattern content - the format separates patterns by whitespace only; whether a pattern is a VALID glob '
+    '(lone trailing backslash) is not this property: files_pattern()/matches() are never called here; line-based '
+    'entries are single lines without outer blanks (inner blanks and commas are content); only the SEQUENCE of '
+    'entries is compared (list(got) == assigned), the container type (tuple) is not demanded',
+    'a document whose dump strict-parses without complaint must parse identically with strict=False (strict only '
+    'decides whether format errors raise; the texts here have none): demanded only after the strict cycle had no finding',
+    'objects created by the same factory (FilesParagraph.create, LicenseParagraph.create, Header(), Copyright()) are '
+    'independent: creating or assigning one never changes what another one returns or dumps, whether or not it was '
+    'added to a document, also when the very same (immutable) License object or equal values were given to both; '
+    'License paragraphs with equal synopsis, equal text or fully equal content are legal (the library has no uniqueness '
+    'rule) and each stays a paragraph of its own; the caller never mutates a list after handing it over',
+    'a "watched-*" key is only used for an object that read back correctly earlier in the same case; otherwise the '
+    'difference is reported as an ordinary built-* conversion difference; an object already reported is not reported '
+    'again by later watch passes',
+    'a late assignment after a first dump must show in the second dump: dump() reflects the current values',
+    'witness confirmation: up to 24 fresh-interpreter executions per shard; a finding that is not reproduced standalone '
+    'is still a violation (it was observed) and says so in its message',
     'License.from_str(s).to_str() == s is only demanded for s = License(synopsis, text).to_str() of an in-domain '
     'License whose decoded value was already equal to the generator\'s (so only what the stated inverse law implies '
     'for a pure to_str is demanded); never for hand-written encoded strings',
@@ -135,9 +209,9 @@ MUST_REACH = [
 DOCS = {'quick': 10000, 'thorough': 560000}
 CODEC = {'quick': 200000, 'thorough': 11200000}
 LICENSES = {'quick': 30000, 'thorough': 1400000}
-FACTORY = {'quick': 2000, 'thorough': 100000}
+FACTORY = {'quick': 1600, 'thorough': 80000}
 MULTI = {'quick': 320, 'thorough': 16000}
-LISTS = {'quick': 24000, 'thorough': 1200000}
+LISTS = {'quick': 20000, 'thorough': 1000000}
 LIST_FIELD_CYCLE = ('files', 'files', 'files', 'upstream_contact', 'files_excluded', 'files_included')
 CODEC_BATCH = 250
 LICENSE_BATCH = 100
@@ -2055,6 +2129,82 @@ def check_license(ctx, lic):
 
 
 # ---------------------------------------------------------------------------
+# confirmation of witnesses in a fresh interpreter (what --replay does)
+
+def standalone(case):
+    """Entry point of the confirmation subprocess: the mechanism keys one case
+    shows when it is the only thing the interpreter executes."""
+    class _Dummy(object):
+        extra = {}
+    setup(_Dummy())
+    kind = case.get('kind')
+    if kind == 'doc':
+        return [k for k, _m in check_doc(case)] if spec_in_domain(case) else []
+    if kind == 'multi':
+        return [k for k, _m, _i in check_multi(case)] if multi_in_domain(case) else []
+    if kind == 'lists':
+        return [k for k, _m, _i in check_lists(case)] if lists_in_domain(case) else []
+    return []
+
+
+_STANDALONE = ('import sys, json\n'
+               'from vp import core\n'
+               'core.bootstrap_repo()\n'
+               'from vp.props import c17\n'
+               'sys.stdout.write("RESULT " + json.dumps(c17.standalone(json.load(sys.stdin))))\n')
+
+CONFIRM_BUDGET = [24]     # fresh-interpreter executions per shard process spent on confirming witnesses
+PREV_DOCS = []            # the last few document specs this process built without a finding
+
+
+def keys_standalone(case):
+    """List of keys, or None when the subprocess could not be run."""
+    import json
+    import subprocess
+    import sys
+    from .. import core
+    try:
+        p = subprocess.run([sys.executable, '-B', '-c', _STANDALONE], input=json.dumps(case).encode('ascii'),
+                           stdout=subprocess.PIPE, stderr=subprocess.DEVNULL, timeout=120, cwd=core.VERIF)
+        out = p.stdout.decode('utf-8', 'replace')
+        if p.returncode != 0 or 'RESULT ' not in out:
+            return None
+        return json.loads(out.split('RESULT ', 1)[1])
+    except Exception:
+        return None
+
+
+def confirm(ctx, key, msg, candidates):
+    """(key, msg, witness).  The library may keep state between objects created by
+    the same factory, and this process has created thousands of them: a witness
+    is only worth something if it shows the mechanism from a fresh interpreter.
+    Candidates are tried smallest first; a 'multi' candidate that reproduces a
+    finding of a single document gets the MULTI_SUFFIX on its key."""
+    if ctx.replay:
+        return key, msg, candidates[0]
+    base = key[:-len(MULTI_SUFFIX)] if key.endswith(MULTI_SUFFIX) else key
+    tried = False
+    for cand in candidates:
+        if CONFIRM_BUDGET[0] <= 0:
+            break
+        CONFIRM_BUDGET[0] -= 1
+        got = keys_standalone(cand)
+        if got is None:
+            break
+        tried = True
+        if base in got:
+            if cand.get('kind') == 'multi' and not key.endswith(MULTI_SUFFIX) and len(cand.get('docs', [])) > 1:
+                return key + MULTI_SUFFIX, msg + ' [witness: this document built after other document(s) in one process]', cand
+            return key, msg, cand
+    if tried:
+        msg += (' [NOT reproduced from a fresh interpreter, neither alone nor after the preceding documents of this '
+                'process: the values read depend on objects this process created earlier]')
+    else:
+        msg += ' [witness not re-executed in a fresh interpreter: confirmation budget of this shard used up]'
+    return key, msg, candidates[-1]
+
+
+# ---------------------------------------------------------------------------
 # framework interface
 
 def setup(ctx):
@@ -2202,7 +2352,7 @@ def _report_doc_findings(ctx, case, found):
             continue
         seen.add(key)
         small = case
-        if ctx.viol_count[key] < 3:          # shrinking is only worth it for the witnesses that are kept
+        if ctx.viol_count[key] < 3:          # shrinking / confirming is only worth it for the witnesses that are kept
             try:
                 small = shrink(case, key)
             except Exception:
@@ -2213,6 +2363,11 @@ def _report_doc_findings(ctx, case, found):
                     msg = again[0]
                 else:
                     small = case
+            cands = [small] + ([case] if small is not case else [])
+            cands.append({'kind': 'multi', 'docs': [small, small]})
+            if PREV_DOCS:
+                cands.append({'kind': 'multi', 'docs': list(PREV_DOCS) + [case]})
+            key, msg, small = confirm(ctx, key, msg, cands)
         ctx.violation(key, msg, small)
 
 
@@ -2255,6 +2410,9 @@ def run_lists(ctx, case):
                 msg = again[0]
             else:
                 small = case
+            cands = [small] + ([case] if small is not case else [])
+            cands.append(dict(case, lists=case['lists'] + case['lists']))
+            key, msg, small = confirm(ctx, key, msg, cands)
         ctx.violation(key, msg, small)
 
 
@@ -2300,6 +2458,8 @@ def run_multi(ctx, case):
                 small = shrink_multi(case, key)
             except Exception:
                 small = case
+            cands = [small] + ([case] if small is not case else [])
+            key2, msg, small = confirm(ctx, key2, msg, cands)
         ctx.violation(key2, msg, small)
 
 
@@ -2364,7 +2524,11 @@ def run_case(ctx, case):
         ctx.count('perm-input:%s' % case['input'])
     if nontrivial or any(f.startswith('punct-') for f in feats):
         ctx.nontrivial()
-    _report_doc_findings(ctx, case, found)
+    if found:
+        _report_doc_findings(ctx, case, found)
+    elif not ctx.replay:
+        PREV_DOCS.append(case)
+        del PREV_DOCS[:-4]
 
 
 def finish(ctx):
